@@ -741,6 +741,9 @@ func genStress(rng *hx.Rng, scale int) [][]string {
 		cases = append(cases, []string{fmt.Sprintf("vd %d %d", 1+rng.Intn(3), hx.Pick(rng, []int{5000, 20000}))})
 	}
 	for i := 0; i < 6*scale; i++ {
+		cases = append(cases, []string{fmt.Sprintf("vy %d %d %d", 1+rng.Intn(3), hx.Pick(rng, []int{2000, 6000}), hx.Pick(rng, []int{0, 3, 10, 25}))})
+	}
+	for i := 0; i < 6*scale; i++ {
 		cases = append(cases, []string{fmt.Sprintf("lm %d %d", 2+rng.Intn(7), hx.Pick(rng, []int{100, 300, 600}))})
 	}
 	for i := 0; i < 8*scale; i++ {
